@@ -165,9 +165,12 @@ def _b2_c16(seed):
             mode = rnd.random()
             if mode < 0.6:
                 p = (round(rnd.uniform(0, 120), 3), round(rnd.uniform(0, 120), 3))
-            elif mode < 0.8:      # level with a vertex
+            elif mode < 0.7:      # level with a vertex
                 v = rnd.choice(poly)
                 p = (round(rnd.uniform(0, 120), 3), v[1])
+            elif mode < 0.8:      # ALMOST level with a vertex: closer than the edge tolerance (0.001; 0.01 through remove_cutout) but not level
+                v = rnd.choice(poly)
+                p = (round(rnd.uniform(0, 120), 3), v[1] + rnd.choice([-1, 1]) * rnd.choice([1e-9, 3e-5, 4e-4, 9e-4, 4e-3, 9e-3]))
             elif mode < 0.9:      # exactly a vertex
                 p = rnd.choice(poly)
             else:                 # exactly on an edge (midpoint; exactly representable only sometimes -> judged by band rule)
